@@ -6,10 +6,7 @@ Import ListNotations.
 Local Open Scope string_scope.
 Local Open Scope N_scope.
 
-(* sentinel kinds: 1 freighter.EOF 2 freighter.ErrStreamClosed 3 query.ErrNotFound
-   4 query.ErrUniqueViolation 5 query.ErrInvalidParameters 6 query.ErrQuery 7 control.ErrUnauthorized
-   8 control.ErrControl 9 validate.ErrValidation 10 validate.ErrRequired 11 validate.ErrInvalidType
-   12 validate.ErrConversion 13 validate.PathError 16 context.Canceled 17 context.DeadlineExceeded *)
+(* sentinel kinds: 1 EOF 2 ErrStreamClosed 3 ErrNotFound 4 ErrUniqueViolation 5 ErrInvalidParameters 6 ErrQuery 7 ErrUnauthorized 8 ErrControl 9 ErrValidation 10 ErrRequired 11 ErrInvalidType 12 ErrConversion 13 validate.PathError 16 context.Canceled 17 context.DeadlineExceeded *)
 
 (* X = errors.Wrap(Y, ...) declarations: (X, Y) *)
 Definition parents : list (N * N) :=
